@@ -346,6 +346,12 @@ pub struct Sim {
 }
 
 static EPOCH: AtomicU32 = AtomicU32::new(1);
+static LEAKED_THREADS: AtomicU64 = AtomicU64::new(0);
+
+/// OS threads left parked by failed runs of this process so far.
+pub fn leaked_threads() -> u64 {
+    LEAKED_THREADS.load(Ordering::Relaxed)
+}
 
 // ---------------------------------------------------------------------------
 // Thread-local "which simulation am I in"
@@ -965,6 +971,13 @@ pub fn run(cfg: RunConfig, main: Box<dyn FnOnce() + Send>) -> RunResult {
         st = g;
     }
     let finished = st.finished && st.failure.is_none();
+    if !finished {
+        // Threads of a failed run stay parked for ever (they cannot be
+        // unwound: a pool worker's abort guard would run). Keep count, so
+        // that callers can bound the number of failing runs per process.
+        let left = st.threads.iter().filter(|t| t.status != Status::Finished).count();
+        LEAKED_THREADS.fetch_add(left as u64, Ordering::Relaxed);
+    }
     let handles: Vec<_> = if finished {
         st.handles.iter_mut().filter_map(|h| h.take()).collect()
     } else {
